@@ -24,15 +24,16 @@ done
 for p in "${pids[@]}"; do wait "$p"; done
 /venv/bin/python - "$jobs" "${ids[@]}" <<'EOF'
 import json, pathlib, sys
-jobs = int(sys.argv[1]); ids = set(sys.argv[2:])
+jobs = int(sys.argv[1]); order = sys.argv[2:]; ids = set(order)
 rf = pathlib.Path('/verif/seeded/RESULTS.json')
 res = json.loads(rf.read_text())
 for j in range(jobs):
     f = pathlib.Path(f'/root/scratch/sp{j}/seeded/RESULTS.json')
     if f.exists():
-        for k, v in json.loads(f.read_text()).items():
-            if k in ids:
-                res[k] = v
+        got = json.loads(f.read_text())
+        for k in order[j::jobs]:          # only what THIS copy ran (the rest of its file is the old state)
+            if k in got:
+                res[k] = got[k]
 rf.write_text(json.dumps(res, indent=1))
 for k in sorted(ids):
     r = res.get(k, {})
